@@ -699,6 +699,8 @@ def _worker(job):
                 out.append(rec('%s/%s.%s/engine' % (pid, mod, name), 'engine-error', '', 0, fq,
                                traceback.format_exc()[-800:]))
     hashes.update(sess.repo.hashes)
+    from pyvc import values as _values
+    hashes['$global_writes'] = dict(_values.GLOBAL_WRITES)
     return out, hashes
 
 
@@ -723,6 +725,7 @@ def run_pool(run, pid, names=None, procs=None):
     recs = []
     for out, hashes in results:
         recs.extend(out)
+        run.global_writes.update(hashes.pop('$global_writes', {}))
         run.hashes.update(hashes)
     recs.sort(key=lambda r: r['name'])
     return recs, tabs
